@@ -11,14 +11,37 @@ def run(c: Check):
               "random; plus one scheduler with a ProcessCounterToken and a CounterToken and two-token jobs (aborted "
               "starts).  non-trivial = at least two token files at once or a refused acquisition (file token), an "
               "aborted two-token start (process token); distinct by (configuration, schedule)")
+    from concurrent.futures import ThreadPoolExecutor
+    early = None
+    if not c.replay:
+        # the real-experiment scenarios run while the schedules are generated and checked
+        wins0 = [dict(kind="startwin", total=2, delay=[0.6, 0.6, 0.3, 1.0][k], prefail=(k == 1)) for k in range(2 if c.quick else 4)]
+        if c.quick:
+            exps0 = [dict(kind="twoexp", totals=[2, 3], nested=True), dict(kind="leftexp", how="exception"), dict(kind="sameid")]
+        else:
+            exps0 = [dict(kind="twoexp", totals=[2, 3], nested=True), dict(kind="twoexp", totals=[2, 2], nested=True),
+                     dict(kind="twoexp", totals=[3, 2], nested=False), dict(kind="twoexp", totals=[2, 2], nested=False),
+                     dict(kind="leftexp", how="exception"), dict(kind="leftexp", how="interrupt"), dict(kind="sameid")]
+        early = ThreadPoolExecutor(max_workers=1).submit(tc.run_batches, "drive_c08.py", wins0 + exps0, c.scratch(), 1, 150)
     tc.run_check(c, "C08")
+    early_res = early.result() if early is not None else None
     rk = json.load(open(c.replay))["replay"].get("scenario", {}).get("kind") if c.replay else None
     if not c.replay or rk == "startwin":
         # the real Scheduler.aio_start on a slow-starting job, a second process watching the token directory:
         # the token file of a starting / running job is never deleted
-        for k in range(1 if c.quick else 3):
-            sc = dict(kind="startwin", total=2, delay=[0.6, 0.3, 1.0][k], scratch=str(c.scratch()))
-            r = run_impl("drive_c08.py", dict(scenarios=[sc], timeout=120), timeout=200)[0]
+        # (prefail: the job failed once before; its .failed marker is still there while it is started again)
+        if c.replay:
+            wins = [dict(json.load(open(c.replay))["replay"]["scenario"])]
+        else:
+            wins = [dict(kind="startwin", total=2, delay=[0.6, 0.6, 0.3, 1.0][k], prefail=(k == 1))
+                    for k in range(2 if c.quick else 4)]
+        for sc in wins:
+            sc["scratch"] = str(c.scratch())
+        if early_res is not None:
+            wins, wres = wins0, early_res[:len(wins0)]
+        else:
+            wres = tc.run_batches("drive_c08.py", wins, c.scratch(), per=1, timeout=120)
+        for sc, r in zip(wins, wres):
             c.evaluations += 1
             c.extra.setdefault("start_window_runs", []).append(r)
             if r.get("error") or not r.get("started"):
@@ -26,37 +49,33 @@ def run(c: Check):
                 continue
             c.count("startwin:ok")
             if not r["files_while_running"] or not r["files_after_slow_start"] or r["second_acquisition_granted"]:
-                sc.pop("scratch")
+                sc.pop("scratch", None)
                 c.violation("C08:token-file-of-running-job-deleted",
-                            "real aio_start with another process watching the token directory: the token file of the job "
+                            "real aio_start with another process watching the token directory%s: the token file of the job "
                             "was deleted while the job was starting/running (files after the slow start: %s, while running: "
                             "%s); a further request was %s although the job holds the whole token"
-                            % (r["files_after_slow_start"], r["files_while_running"],
+                            % (" (job relaunched after a failure)" if sc.get("prefail") else "",
+                               r["files_after_slow_start"], r["files_while_running"],
                                "granted" if r["second_acquisition_granted"] else "refused"),
                             dict(scenario=sc, observed=r))
-    if c.replay and json.load(open(c.replay))["replay"].get("scenario", {}).get("kind") == "stress":
-        sc = dict(json.load(open(c.replay))["replay"]["scenario"], scratch=str(c.scratch()))
-        r = run_impl("drive_c08.py", sc, timeout=120)
-        log = r.pop("log")
-        if r["peak"] > sc["total"]:
-            c.violation("C08:stress-capacity-exceeded",
-                        "real processes: tasks running at the same instant hold %d > total %d" % (r["peak"], sc["total"]),
-                        dict(scenario=sc, log=log, peak_at=r["peak_at"]))
-    if not c.replay or rk in ("twoexp", "leftexp"):
+    if not c.replay or rk in ("twoexp", "leftexp", "sameid"):
         # real experiments: (a) two experiments of ONE process ask the same token name (equal / different totals,
         # nested / one after the other); (b) an experiment is left by an exception / interrupt while its
         # token-holding job still runs, then another process asks for the token
         if c.replay:
             scs = [dict(json.load(open(c.replay))["replay"]["scenario"])]
         elif c.quick:
-            scs = [dict(kind="twoexp", totals=[2, 3], nested=True), dict(kind="leftexp", how="exception")]
+            scs = [dict(kind="twoexp", totals=[2, 3], nested=True), dict(kind="leftexp", how="exception"), dict(kind="sameid")]
         else:
             scs = [dict(kind="twoexp", totals=[2, 3], nested=True), dict(kind="twoexp", totals=[2, 2], nested=True),
                    dict(kind="twoexp", totals=[3, 2], nested=False), dict(kind="twoexp", totals=[2, 2], nested=False),
-                   dict(kind="leftexp", how="exception"), dict(kind="leftexp", how="interrupt")]
+                   dict(kind="leftexp", how="exception"), dict(kind="leftexp", how="interrupt"), dict(kind="sameid")]
         for sc in scs:
             sc["scratch"] = str(c.scratch())
-        rs = tc.run_batches("drive_c08.py", scs, c.scratch(), per=1, timeout=120)
+        if early_res is not None:
+            scs, rs = exps0, early_res[len(wins0):]
+        else:
+            rs = tc.run_batches("drive_c08.py", scs, c.scratch(), per=1, timeout=120)
         for sc, r in zip(scs, rs):
             sc.pop("scratch", None)
             c.evaluations += 1
@@ -75,6 +94,15 @@ def run(c: Check):
                                     % (sc["totals"], "nested" if sc["nested"] else "one after the other", o["running"],
                                        o["total"], o["token_files"], r.get("same_object")),
                                     dict(scenario=sc, observed=r))
+            elif sc["kind"] == "sameid":
+                if r.get("first_request_made") and (not r["other_holder_file_kept"] or r["job_started_while_other_holds"]):
+                    c.violation("C08:refused-request-disturbs-other-holder",
+                                "the same job (same identifier = same token file name) is held through another scheduler "
+                                "sharing the token directory; this scheduler's request is refused, yet afterwards the other "
+                                "holder's token file is %s and this scheduler's job %s"
+                                % ("kept" if r["other_holder_file_kept"] else "gone",
+                                   "runs as well" if r["job_started_while_other_holds"] else "waits"),
+                                dict(scenario=sc, observed=r))
             else:
                 if r.get("job_running") and r.get("job_running_after") and (not r["token_files"] or r["second_request_granted"]):
                     c.violation("C08:token-released-while-job-runs:experiment-left",
